@@ -533,17 +533,19 @@ fn next_f32(x: f32, up: bool) -> f32 {
     f32::from_bits(if (x > 0.0) == up { b + 1 } else { b - 1 })
 }
 
+// (instantiated at the concrete element types: whatever bounds a changed tree puts on `Deserialize` of its models are
+// met - or fail - at f32 / f64, not at a generic parameter of the harness)
 /// rebuild every member tree from the forest's serde image and call its real `predict` on `rows`
-fn member_predictions<T: RealNumber + serde::de::DeserializeOwned>(task: &str, trees: &[Value], rows: &[Vec<f64>]) -> Result<Vec<Vec<f64>>, (usize, String)> {
-    let qm: DenseMatrix<T> = mat_t(rows);
+fn member_predictions_f32(task: &str, trees: &[Value], rows: &[Vec<f64>]) -> Result<Vec<Vec<f64>>, (usize, String)> {
+    let qm: DenseMatrix<f32> = mat_t::<f32>(rows);
     let mut member = vec![];
     for (t, tv) in trees.iter().enumerate() {
         let r = if task == "clf" {
-            serde_json::from_value::<DecisionTreeClassifier<T>>(tv.clone())
+            serde_json::from_value::<DecisionTreeClassifier<f32>>(tv.clone())
                 .map_err(|e| e.to_string())
                 .and_then(|tr| guarded(|| tr.predict(&qm)).and_then(|r| r.map_err(|e| e.to_string())))
         } else {
-            serde_json::from_value::<DecisionTreeRegressor<T>>(tv.clone())
+            serde_json::from_value::<DecisionTreeRegressor<f32>>(tv.clone())
                 .map_err(|e| e.to_string())
                 .and_then(|tr| guarded(|| tr.predict(&qm)).and_then(|r| r.map_err(|e| e.to_string())))
         };
@@ -556,14 +558,51 @@ fn member_predictions<T: RealNumber + serde::de::DeserializeOwned>(task: &str, t
 }
 
 /// byte-identical twins must also be equal under the model's own PartialEq
-fn twins_compare_unequal<T: RealNumber + serde::de::DeserializeOwned>(task: &str, a: &[u8], b: &[u8]) -> bool {
+fn twins_compare_unequal_f32(task: &str, a: &[u8], b: &[u8]) -> bool {
     if task == "clf" {
-        match (bincode::deserialize::<RandomForestClassifier<T>>(a), bincode::deserialize::<RandomForestClassifier<T>>(b)) {
+        match (bincode::deserialize::<RandomForestClassifier<f32>>(a), bincode::deserialize::<RandomForestClassifier<f32>>(b)) {
             (Ok(ma), Ok(mb)) => ma != mb,
             _ => false,
         }
     } else {
-        match (bincode::deserialize::<RandomForestRegressor<T>>(a), bincode::deserialize::<RandomForestRegressor<T>>(b)) {
+        match (bincode::deserialize::<RandomForestRegressor<f32>>(a), bincode::deserialize::<RandomForestRegressor<f32>>(b)) {
+            (Ok(ma), Ok(mb)) => ma != mb,
+            _ => false,
+        }
+    }
+}
+
+/// rebuild every member tree from the forest's serde image and call its real `predict` on `rows`
+fn member_predictions_f64(task: &str, trees: &[Value], rows: &[Vec<f64>]) -> Result<Vec<Vec<f64>>, (usize, String)> {
+    let qm: DenseMatrix<f64> = mat_t::<f64>(rows);
+    let mut member = vec![];
+    for (t, tv) in trees.iter().enumerate() {
+        let r = if task == "clf" {
+            serde_json::from_value::<DecisionTreeClassifier<f64>>(tv.clone())
+                .map_err(|e| e.to_string())
+                .and_then(|tr| guarded(|| tr.predict(&qm)).and_then(|r| r.map_err(|e| e.to_string())))
+        } else {
+            serde_json::from_value::<DecisionTreeRegressor<f64>>(tv.clone())
+                .map_err(|e| e.to_string())
+                .and_then(|tr| guarded(|| tr.predict(&qm)).and_then(|r| r.map_err(|e| e.to_string())))
+        };
+        match r {
+            Ok(v) => member.push(to64(v)),
+            Err(e) => return Err((t, e)),
+        }
+    }
+    Ok(member)
+}
+
+/// byte-identical twins must also be equal under the model's own PartialEq
+fn twins_compare_unequal_f64(task: &str, a: &[u8], b: &[u8]) -> bool {
+    if task == "clf" {
+        match (bincode::deserialize::<RandomForestClassifier<f64>>(a), bincode::deserialize::<RandomForestClassifier<f64>>(b)) {
+            (Ok(ma), Ok(mb)) => ma != mb,
+            _ => false,
+        }
+    } else {
+        match (bincode::deserialize::<RandomForestRegressor<f64>>(a), bincode::deserialize::<RandomForestRegressor<f64>>(b)) {
             (Ok(ma), Ok(mb)) => ma != mb,
             _ => false,
         }
@@ -879,7 +918,7 @@ impl C06 {
         }
         rep.count("steps.forest_api_calls", a.calls + b.calls);
         // model's own equality: a model equals its twin
-        let twins_unequal = if case.f32m { twins_compare_unequal::<f32>(&case.task, &a.bytes, &b.bytes) } else { twins_compare_unequal::<f64>(&case.task, &a.bytes, &b.bytes) };
+        let twins_unequal = if case.f32m { twins_compare_unequal_f32(&case.task, &a.bytes, &b.bytes) } else { twins_compare_unequal_f64(&case.task, &a.bytes, &b.bytes) };
         if a.bytes == b.bytes && twins_unequal {
             rep.fail("irreproducible", "partial-eq", format!("{}: byte-identical twins compare unequal under the model's own PartialEq", ctx));
         }
@@ -919,7 +958,7 @@ impl C06 {
             q_all.extend(rows.iter().cloned());
             rep.count("steps.threshold-rows", rows.len() as u64);
         }
-        let member: Vec<Vec<f64>> = match if case.f32m { member_predictions::<f32>(&case.task, &trees, &q_all) } else { member_predictions::<f64>(&case.task, &trees, &q_all) } {
+        let member: Vec<Vec<f64>> = match if case.f32m { member_predictions_f32(&case.task, &trees, &q_all) } else { member_predictions_f64(&case.task, &trees, &q_all) } {
             Ok(m) => m,
             Err((t, e)) => {
                 rep.fail("member-tree", "forest-model", format!("{}: member tree {} cannot be rebuilt / predict: {}", ctx, t, e));
